@@ -192,7 +192,17 @@ def run_case(ctx, rng, h):
         on_clone = o[1] in clone_ids
         before = components(real.view_world())
         known = set(real.objs)
+        others = []
+        for rid, comp in before.items():
+            ids = set()
+            if isinstance(comp, tuple) and len(comp) == 3 and isinstance(comp[0], list):
+                ids_of_view(comp[1], ids)
+            else:
+                ids_of_view(comp, ids)
+            if (not (ids & clone_ids)) if on_clone else (bool(ids & clone_ids) and ids <= clone_ids):
+                others.append(rid)
         exc = do_op(o)
+        rec["events"][-1]["other_roots"] = others
         after = components(real.view_world())
         new_ids = set(real.objs) - known
         if on_clone:
@@ -241,6 +251,26 @@ def compare(ctx, rec, val):
             return
 
 
+def check_guard(ctx, rec, val):
+    """the hypothesis of C10_independent (no update of a later call names a node of a tree on the other side) holds for
+    the calls the check addresses to one side"""
+    if val is None or rec["fail"]:
+        return
+    d = T.Dec(val)
+    for e in rec["events"]:
+        fr = d.framed()
+        flags = {}
+        while not fr.done():
+            rid = fr.n()
+            flags[rid] = fr.n()
+        for rid in e.get("other_roots", []):
+            ctx.count(1, "guard-of-C10_independent")
+            if flags.get(rid) != 1:
+                ctx.mismatch("hist_avoids does not hold for a call addressed to the other side",
+                             {"docs": rec["docs"], "events": [x["ev"] for x in rec["events"]], "tree": rid, "flags": flags})
+                return
+
+
 def replay_open(f):
     return c01.replay_open(f)
 
@@ -254,10 +284,15 @@ def run(ctx, args):
     with no_gc():
         for h in range(220 if quick else 5000):
             recs.append(run_case(ctx, ctx.rng, h))
-    terms = ["cev_hist %s [%s]" % (T.gworld(r["w0"]), ";".join(gevent(e["ev"]) for e in r["events"])) for r in recs]
-    vals = ctx.coq_eval("c10", REQ, terms, chunk=max(4, len(terms) // 16 + 1))
-    for r, v in zip(recs, vals):
-        compare(ctx, r, v)
+    terms = []
+    for r in recs:
+        evs = "[%s]" % ";".join(gevent(e["ev"]) for e in r["events"])
+        terms.append("cev_hist %s %s" % (T.gworld(r["w0"]), evs))
+        terms.append("avoid_report false %s %s" % (T.gworld(r["w0"]), evs))
+    vals = ctx.coq_eval("c10", REQ, terms, chunk=max(8, len(terms) // 16 + 2))
+    for i, r in enumerate(recs):
+        compare(ctx, r, vals[2 * i])
+        check_guard(ctx, r, vals[2 * i + 1])
     return ctx.finish(
         rule="states: C01-reachable trees (1-2 parsed documents with mixed content, default namespace on/off, prologue / "
              "epilogue sometimes, a pool of parentless nodes, 0-8 edits); then one clone: any node (tag, text in DATA / "
